@@ -162,10 +162,12 @@ Definition run_cmd (m : ovf_mode) (cmd : tok) (args : list tok) : list byte :=
   else if tok_is cmd "RTV" then run_rtv args
   else if tok_is cmd "RTBIG" then S_ "NA"       (* sizes beyond what the model evaluates in reasonable time: implementation + reference encoder only *)
   else if tok_is cmd "SPEC" then run_spec args
+  else if tok_is cmd "SPECX" then S_ "NA"
   else if tok_is cmd "DECRT" then run_decrt args
   else if tok_is cmd "CRC16" then run_crc16 args
   else if tok_is cmd "CRC32" then run_crc32 args
   else if tok_is cmd "CLI" then run_cli args
+  else if tok_is cmd "CLIX" then S_ "NA"
   else if tok_is cmd "ID" then run_id args
   else if tok_is cmd "IDPAIR" then run_idpair args
   else if tok_is cmd "IDREF" then run_idref args
